@@ -200,7 +200,7 @@ void cv_face_centre_cells(CellVec *c, int res, int ndir) {
 void cv_basecell_vertex_cells(CellVec *c, int res, int n) {
     H3Index r0[122]; getRes0Cells(r0);
     for (int i = 0; i < n; i++) { CellBoundary cb; if (cellToBoundary(r0[vt_randn(122)], &cb)) continue; LatLng g = cb.verts[vt_randn(cb.numVerts)];
-        g.lat += 1e-7 * (vt_rand01() - 0.5) * (double)vt_randn(3); g.lng += 1e-7 * (vt_rand01() - 0.5) * (double)vt_randn(3);
+        double jit = vt_randn(4) ? pow(10, -7 + 4 * vt_rand01()) : 0; g.lat += jit * (vt_rand01() - 0.5); g.lng += jit * (vt_rand01() - 0.5);      /* on the corner, or 1e-7 .. 1e-3 rad from it */
         H3Index h = 0; if (latLngToCell(&g, res, &h)) continue; cv_push(c, h);
         H3Index d[7] = {0}; if (!gridDisk(h, 1, d)) { H3Index x = d[1 + vt_randn(6)]; if (x) cv_push(c, x); } }
 }
